@@ -133,7 +133,9 @@ def run(ctx):
             ctx.violation("judge", "C19 judge failed on the real loader's outcome: %s (results=%s later=%s; %s)" %
                           (kv["judge"], r.get("results"), r.get("later"), specs.get(cid, "")[:200]), payload,
                           fingerprint={"clause": clause, "broken": r.get("broken", "?"), "later": r.get("later", "?"),
-                                       "lockleft": r.get("lockleft", "?")})
+                                       "lockleft": r.get("lockleft", "?"),
+                                       "winner_failed_to_compile": "1" if "compile" in r.get("results", "").split(";") else "0",
+                                       "stale_version": "1" if "ok1" in r.get("results", "").split(";") + [r.get("later", "")] else "0"})
         if kv["corr"].startswith("skip"):
             corr_skip += 1
         else:
@@ -150,6 +152,9 @@ def run(ctx):
     ctx.oblige("corr:model=loader", corr_bad == 0 and consistent,
                "%d disagreements; cases explained only by orig: %d, only by recheck: %d" % (corr_bad, only_orig, only_re))
     hook = mode.get("hook") == "1"
+    if not hook and mode.get("patient") != "1":
+        ctx.notes.append("quick tier without the hook: the real 30 s lock timeout is not sat out (callers still running after 6 s are "
+                         "killed and count as crashed; %s leftover-lock cases skipped); the stale-lock finding is exercised with the hook or in the thorough tier" % mode.get("skipped_free", "0"))
     ctx.notes.append("mode: %s" % ("controlled schedules + free races (hook hooks/C19-loader-points.diff present in /repo)" if hook
                                    else "free races only (hook absent: uncontrolled concurrency, kill -9 at random times, leftover lock/temp)"))
     ctx.notes.append("protocol variant matched: %s" % ("recheck (fixes/C19-recheck-and-steal.diff)" if only_re else "orig (unchanged tree)"))
